@@ -55,6 +55,10 @@ func c04(r *lp.Run) {
 	if discarded*10 > nSpecs {
 		r.Fail(lp.PropFail{Property: "C04", What: "more than 10% of the random schema specs are refused by the generator", Input: discarded, Observed: fmt.Sprint(discarded), Expected: "rare refusals"})
 	}
+	fmtPkg, ferr := mod.Add("fm", []byte(fmtMatrixDoc()), gen.Options{})
+	if ferr != nil {
+		r.Fail(lp.PropFail{Property: "C04", What: "the generator refuses the format-matrix spec", Input: fmtMatrixDoc(), Observed: ferr.Error(), Expected: "generated package"})
+	}
 	bin, err := mod.Build()
 	if err != nil {
 		r.Fail(lp.PropFail{Property: "C02", What: "generated packages do not compile", Input: "schema specs", Observed: err.Error(), Expected: "compiles"})
@@ -67,6 +71,9 @@ func c04(r *lp.Run) {
 	defer drv.Close()
 	if len(specs) > 0 && specs[0] == m {
 		c04Wrappers(r, drv, m)
+	}
+	if fmtPkg != nil {
+		c04Formats(r, drv, fmtPkg)
 	}
 	for _, b := range specs {
 		names := make([]string, 0)
